@@ -520,7 +520,8 @@ package trzsz
 //@ # C16: in Windows framing and in tmux junk mode, text in front of the line's marker is cut away
 //@ func trzszTransfer.recvLine
 //@   requires t.buffer != nil && tbWF(t.buffer)
-//@   assigns fields(t.buffer), recvd, bufLen, bufCap, bufArr, elemsof("byte")
+//@   assigns fields(t.buffer), recvd, bufLen, bufCap, bufArr, elemsof("byte"), wlog, wlen
+//@   ensures nothingSent()
 //@   ensures tbWF(t.buffer)
 //@   ensures [C16] r1 == nil && !t.tunnelConnected && \
 //@       (windowsEnvironment || t.windowsProtocol || t.transferConfig.TmuxOutputJunk || mayHasJunk) ==> cutOK(r0)
@@ -528,25 +529,37 @@ package trzsz
 
 //@ func trzszTransfer.recvCheck
 //@   requires t.buffer != nil && tbWF(t.buffer)
-//@   assigns fields(t.buffer), recvd, bufLen, bufCap, bufArr, elemsof("byte")
+//@   assigns fields(t.buffer), recvd, bufLen, bufCap, bufArr, elemsof("byte"), wlog, wlen
+//@   ensures nothingSent()
 //@   ensures tbWF(t.buffer)
 //@ end
 
 //@ func trzszTransfer.recvString
 //@   requires t.buffer != nil && tbWF(t.buffer)
-//@   assigns fields(t.buffer), recvd, bufLen, bufCap, bufArr, elemsof("byte")
+//@   assigns fields(t.buffer), recvd, bufLen, bufCap, bufArr, elemsof("byte"), wlog, wlen
+//@   ensures nothingSent()
 //@   ensures tbWF(t.buffer)
 //@ end
 
 //@ func trzszTransfer.recvInteger
 //@   requires t.buffer != nil && tbWF(t.buffer)
-//@   assigns fields(t.buffer), recvd, bufLen, bufCap, bufArr, elemsof("byte")
+//@   assigns fields(t.buffer), recvd, bufLen, bufCap, bufArr, elemsof("byte"), wlog, wlen
+//@   ensures nothingSent()
 //@   ensures tbWF(t.buffer)
 //@ end
 
 //@ # ASSUMED: the trace logger writes to its own log file and fields only
 //@ func traceLogger.writeTraceLog trusted pure
 //@ end
+
+//@ # writers other than the connection are untouched (zlib writers used to encode a message are private)
+//@ pure othersKept(t *trzszTransfer) bool = \
+//@     (forall w int {wlog[w]} :: w != t.writer && !typeis(w, "*zlib.Writer") ==> wlog[w] == old(wlog)[w]) && \
+//@     (forall w int {wlen[w]} :: w != t.writer && !typeis(w, "*zlib.Writer") ==> wlen[w] == old(wlen)[w])
+//@ # nothing is written to any writer except private zlib writers
+//@ pure nothingSent() bool = \
+//@     (forall w int {wlog[w]} :: !typeis(w, "*zlib.Writer") ==> wlog[w] == old(wlog)[w]) && \
+//@     (forall w int {wlen[w]} :: !typeis(w, "*zlib.Writer") ==> wlen[w] == old(wlen)[w])
 
 //@ # writeAll appends exactly data, in order, to the writer's log (and terminates: every
 //@ # successful Write consumes everything it was given)
@@ -569,29 +582,27 @@ package trzsz
 //@ end
 //@ func trzszTransfer.writeAll
 //@   assigns wlog, wlen
-//@   ensures forall w int {wlog[w]} :: w != t.writer ==> wlog[w] == old(wlog)[w]
-//@   ensures forall w int {wlen[w]} :: w != t.writer ==> wlen[w] == old(wlen)[w]
+//@   ensures othersKept(t)
 //@ end
 //@ func trzszTransfer.sendLine
 //@   assigns wlog, wlen
-//@   ensures forall w int {wlog[w]} :: w != t.writer ==> wlog[w] == old(wlog)[w]
-//@   ensures forall w int {wlen[w]} :: w != t.writer ==> wlen[w] == old(wlen)[w]
+//@   ensures othersKept(t)
 //@ end
 //@ func trzszTransfer.sendString
 //@   assigns wlog, wlen
-//@   ensures forall w int {wlog[w]} :: w != t.writer ==> wlog[w] == old(wlog)[w]
-//@   ensures forall w int {wlen[w]} :: w != t.writer ==> wlen[w] == old(wlen)[w]
+//@   ensures othersKept(t)
 //@ end
 //@ func trzszTransfer.sendInteger
 //@   assigns wlog, wlen
-//@   ensures forall w int {wlog[w]} :: w != t.writer ==> wlog[w] == old(wlog)[w]
-//@   ensures forall w int {wlen[w]} :: w != t.writer ==> wlen[w] == old(wlen)[w]
+//@   ensures othersKept(t)
 //@ end
 //@ func encodeBytes
 //@   assigns wlog, wlen
+//@   ensures nothingSent()
 //@ end
 //@ func encodeString
 //@   assigns wlog, wlen
+//@   ensures nothingSent()
 //@ end
 
 //@ func isWindowsEnvironment pure
@@ -649,7 +660,8 @@ package trzsz
 //@ end
 //@ func trzszTransfer.recvHash
 //@   requires t.buffer != nil && tbWF(t.buffer)
-//@   assigns fields(t.buffer), recvd, bufLen, bufCap, bufArr, elemsof("byte")
+//@   assigns fields(t.buffer), recvd, bufLen, bufCap, bufArr, elemsof("byte"), wlog, wlen
+//@   ensures nothingSent()
 //@   ensures tbWF(t.buffer)
 //@   ensures r1 == nil ==> r0 != nil && r0 > old(alloc())
 //@ end
@@ -767,31 +779,34 @@ package trzsz
 
 //@ func trzszTransfer.recvBinary
 //@   requires t.buffer != nil && tbWF(t.buffer)
-//@   assigns fields(t.buffer), recvd, bufLen, bufCap, bufArr, elemsof("byte")
+//@   assigns fields(t.buffer), recvd, bufLen, bufCap, bufArr, elemsof("byte"), wlog, wlen
+//@   ensures nothingSent()
 //@   ensures tbWF(t.buffer)
 //@ end
 //@ func trzszTransfer.sendBinary
 //@   assigns wlog, wlen
-//@   ensures forall w int {wlog[w]} :: w != t.writer ==> wlog[w] == old(wlog)[w]
-//@   ensures forall w int {wlen[w]} :: w != t.writer ==> wlen[w] == old(wlen)[w]
+//@   ensures othersKept(t)
 //@ end
 
 //@ # echo checks: nil is returned only if what the peer echoed equals what was expected
 //@ func trzszTransfer.checkInteger
 //@   requires t.buffer != nil && tbWF(t.buffer)
-//@   assigns fields(t.buffer), recvd, bufLen, bufCap, bufArr, elemsof("byte")
+//@   assigns fields(t.buffer), recvd, bufLen, bufCap, bufArr, elemsof("byte"), wlog, wlen
+//@   ensures nothingSent()
 //@   ensures tbWF(t.buffer)
 //@   ensures [C02] r0 == nil ==> result_of("trzszTransfer.recvInteger", 0, 0) == expect && result_of("trzszTransfer.recvInteger", 0, 1) == nil
 //@ end
 //@ func trzszTransfer.checkString
 //@   requires t.buffer != nil && tbWF(t.buffer)
-//@   assigns fields(t.buffer), recvd, bufLen, bufCap, bufArr, elemsof("byte")
+//@   assigns fields(t.buffer), recvd, bufLen, bufCap, bufArr, elemsof("byte"), wlog, wlen
+//@   ensures nothingSent()
 //@   ensures tbWF(t.buffer)
 //@   ensures [C02] r0 == nil ==> result_of("trzszTransfer.recvString", 0, 0) == expect && result_of("trzszTransfer.recvString", 0, 1) == nil
 //@ end
 //@ func trzszTransfer.checkBinary
 //@   requires t.buffer != nil && tbWF(t.buffer)
-//@   assigns fields(t.buffer), recvd, bufLen, bufCap, bufArr, elemsof("byte")
+//@   assigns fields(t.buffer), recvd, bufLen, bufCap, bufArr, elemsof("byte"), wlog, wlen
+//@   ensures nothingSent()
 //@   ensures tbWF(t.buffer)
 //@   ensures [C02] r0 == nil ==> bytesEq(result_of("trzszTransfer.recvBinary", 0, 0), expect) && result_of("trzszTransfer.recvBinary", 0, 1) == nil
 //@ end
@@ -805,7 +820,7 @@ package trzsz
 //@   ensures tbWF(t.buffer)
 //@   ensures [C02] r0 == nil ==> bytesEq(digest, result_of("trzszTransfer.recvBinary", 0, 0)) && result_of("trzszTransfer.recvBinary", 0, 1) == nil
 //@   ensures [C02] result_of("trzszTransfer.recvBinary", 0, 1) != nil || !bytesEq(digest, result_of("trzszTransfer.recvBinary", 0, 0)) ==> \
-//@       r0 != nil && wlen == old(wlen) && wlog == old(wlog)
+//@       r0 != nil && nothingSent()
 //@ end
 //@ func trzszTransfer.sendFileMD5
 //@   nilable progress
@@ -823,7 +838,8 @@ package trzsz
 //@ func trzszTransfer.recvData
 //@   requires t.buffer != nil && tbWF(t.buffer)
 //@   requires t.transferConfig.EscapeTable != nil ==> tableWF(t.transferConfig.EscapeTable)
-//@   assigns fields(t.buffer), recvd, bufLen, bufCap, bufArr, elemsof("byte")
+//@   assigns fields(t.buffer), recvd, bufLen, bufCap, bufArr, elemsof("byte"), wlog, wlen
+//@   ensures nothingSent()
 //@   ensures tbWF(t.buffer)
 //@   ensures [C02] r1 == nil && t.transferConfig.Binary ==> len(result_of("unescapeData", 0, 1)) == 0 && result_of("unescapeData", 0, 2) == nil
 //@ end
@@ -834,7 +850,7 @@ package trzsz
 //@   nilable progress
 //@   requires t.buffer != nil && tbWF(t.buffer)
 //@   requires t.transferConfig.EscapeTable != nil ==> tableWF(t.transferConfig.EscapeTable)
-//@   requires file != t.writer && !typeis(file, "*md5.digest") && !typeis(t.writer, "*md5.digest")
+//@   requires file != t.writer && !typeis(file, "*md5.digest") && !typeis(t.writer, "*md5.digest") && !typeis(file, "*zlib.Writer")
 //@   ensures [C02] r1 == nil ==> wlen[file] - old(wlen)[file] >= size && \
 //@       wlen[result_of("md5.New", 0, 0)] == wlen[file] - old(wlen)[file] && \
 //@       (forall k int {wlog[result_of("md5.New", 0, 0)][k]} :: 0 <= k && k < wlen[result_of("md5.New", 0, 0)] ==> \
